@@ -14,7 +14,7 @@ package fscache
 //@   private changes.removeAll
 //@   private changes.mkdirAll
 //@   private changes.write
-//@ define CInv(c ref) bool = c.bufferFS != nil && c.remoteFS != nil && c.bufferFS != c.remoteFS && c.changes.remove != nil && c.changes.removeAll != nil && c.changes.mkdirAll != nil && c.changes.write != nil && ref(c.changes.remove) != ref(c.changes.removeAll) && ref(c.changes.remove) != ref(c.changes.write) && ref(c.changes.removeAll) != ref(c.changes.write)
+//@ define CInv(c ref) bool = c.bufferFS != nil && c.remoteFS != nil && c.bufferFS != c.remoteFS && payload(c.remoteFS) != c && payload(c.bufferFS) != c && c.changes.remove != nil && c.changes.removeAll != nil && c.changes.mkdirAll != nil && c.changes.write != nil && ref(c.changes.remove) != ref(c.changes.removeAll) && ref(c.changes.remove) != ref(c.changes.write) && ref(c.changes.removeAll) != ref(c.changes.write)
 
 // Removed(c, p): a pending Remove of p, or a pending RemoveAll of p or of a directory above it
 //@ define Removed(c ref, p string) bool = has(c.changes.remove, p) || has(c.changes.removeAll, p) || existss(q, has(c.changes.removeAll, q) && hasprefix(p, cat(q, "/")))
@@ -52,6 +52,17 @@ package fscache
 //@   loop 1 invariant !has(c.changes.remove, p)
 //@   loop 1 invariant foralls(k, visitedIn(1, k) ==> !(p == k || hasprefix(p, cat(k, "/"))))
 
+// the parent directory of a created node is journalled as a directory to create (unless it is the
+// root); an explicit MkdirAll of it keeps its mode; nothing else changes
+//@ extern path.Dir(p) (r)
+//@   pure
+//@ func (*Cache).changeParent [C06 C07]
+//@   requires CInv(c)
+//@   modifies M:string:fs.FileMode, $maplen
+//@   ensures path.Dir(dest) != "." && path.Dir(dest) != "/" ==> has(c.changes.mkdirAll, path.Dir(dest))
+//@   ensures foralls(s, old(has(c.changes.mkdirAll, s)) ==> has(c.changes.mkdirAll, s) && c.changes.mkdirAll[s] == old(c.changes.mkdirAll[s]))
+//@   ensures foralls(s, has(c.changes.mkdirAll, s) ==> old(has(c.changes.mkdirAll, s)) || s == path.Dir(dest))
+
 // buffer first: a path present in the buffer is served from the buffer (read-your-writes)
 //@ func (*Cache).srcFS [C06 C07]
 //@   requires CInv(c)
@@ -70,6 +81,8 @@ package fscache
 // mutators: the remote is only read; the cleaned path is journalled on every path; the buffer gets the cleaned path
 //@ func (*Cache).MkdirAll [C06 C07]
 //@   requires CInv(c)
+//@   at_call (*Cache).changeParent requires $0 == c && $1 == cleanPath(old(dest))
+//@   ensures path.Dir(cleanPath(old(dest))) != "." && path.Dir(cleanPath(old(dest))) != "/" ==> has(c.changes.mkdirAll, path.Dir(cleanPath(old(dest))))
 //@   only_calls c.remoteFS : ReadDir IsExist IsFile IsDir ReadFile Reader Lstat Filespace
 //@   ensures has(c.changes.mkdirAll, cleanPath(old(dest))) && c.changes.mkdirAll[cleanPath(old(dest))] == filemode
 //@   at_call Filespace.MkdirAll requires $recv == c.bufferFS && $0 == cleanPath(old(dest)) && $1 == filemode
@@ -78,6 +91,8 @@ package fscache
 //@   ensures result == bres
 //@ func (*Cache).WriteFile [C06 C07]
 //@   requires CInv(c)
+//@   at_call (*Cache).changeParent requires $0 == c && $1 == cleanPath(old(dest))
+//@   ensures path.Dir(cleanPath(old(dest))) != "." && path.Dir(cleanPath(old(dest))) != "/" ==> has(c.changes.mkdirAll, path.Dir(cleanPath(old(dest))))
 //@   only_calls c.remoteFS : ReadDir IsExist IsFile IsDir ReadFile Reader Lstat Filespace
 //@   ensures has(c.changes.write, old(dest))
 //@   at_call Filespace.WriteFile requires $recv == c.bufferFS && $1 == data && $2 == perm
@@ -86,6 +101,8 @@ package fscache
 //@   ensures result == bres
 //@ func (*Cache).Writer [C06 C07]
 //@   requires CInv(c)
+//@   at_call (*Cache).changeParent requires $0 == c && $1 == cleanPath(old(dest))
+//@   ensures path.Dir(cleanPath(old(dest))) != "." && path.Dir(cleanPath(old(dest))) != "/" ==> has(c.changes.mkdirAll, path.Dir(cleanPath(old(dest))))
 //@   only_calls c.remoteFS : ReadDir IsExist IsFile IsDir ReadFile Reader Lstat Filespace
 //@   ensures has(c.changes.write, cleanPath(old(dest)))
 //@   at_call Filespace.Writer requires $recv == c.bufferFS && $0 == cleanPath(old(dest))
@@ -110,7 +127,12 @@ package fscache
 //@   ensures has(c.changes.write, cleanPath(old(dest)))
 // the journal only grows (the callers below record the destination before they delegate to Copy)
 //@   ensures foralls(s, old(has(c.changes.write, s)) ==> has(c.changes.write, s))
-//@   at_call Copier.Do requires $0.DestFS == c.bufferFS && $0.DestPath == cleanPath(old(dest)) && $0.SrcPath == cleanPath(old(src)) && ($0.SrcFS == c.bufferFS || $0.SrcFS == c.remoteFS)
+// the source is the cache's own (merged, remove-aware) read view behind the read-only mask; the
+// remote itself is not handed to the copier at all
+//@   trace NewReadonlyFS as RO bind ro
+//@   at_call NewReadonlyFS requires payload($0) == c
+//@   at_call Copier.Do requires $0.DestFS == c.bufferFS && $0.DestPath == cleanPath(old(dest)) && $0.SrcPath == cleanPath(old(src)) && $0.SrcFS == ro
+//@   at_call (*Cache).changeParent requires $0 == c && $1 == cleanPath(old(dest))
 //@ func (*Cache).CopyDirectory [C06 C07]
 //@   requires CInv(c)
 //@   only_calls c.remoteFS : ReadDir IsExist IsFile IsDir ReadFile Reader Lstat Filespace
@@ -193,9 +215,21 @@ package fscache
 //@   trace_ensures true : ^SRC RD $
 //@   ensures result0 == rd.0 && result1 == rd.1
 
-// Commit replays the four journals in the order removes, recursive removes, directories,
-// written files; every journal entry is visited; each visit issues exactly the calls below on
-// the remote; the first failure is returned; the buffer is only read
+// Commit replays the four journals in the order recursive removes, removes (longest path first),
+// directories, written files; each visit issues exactly the calls below on the remote; the first
+// failure is returned; the buffer is only read. A journal is emptied once its replay loop has
+// completed, so after a successful Commit all four are empty (a second Commit does nothing) and
+// after a failure the journals of the completed phases are empty.
+//@ func (*Cache).removesDeepestFirst$1 [C06 C07]
+//@   requires 0 <= i && i < len(removes) && 0 <= j && j < len(removes)
+//@   ensures result == (len(removes[i]) > len(removes[j]))
+// the replay order of the plain removes: every element is a journalled path
+//@ func (*Cache).removesDeepestFirst [C06 C07]
+//@   requires CInv(c)
+//@   modifies E:string
+//@   ensures forall(k, 0 <= k && k < len(result) ==> has(c.changes.remove, result[k]))
+//@   loop 1 invariant forall(k, 0 <= k && k < len(removes) ==> has(c.changes.remove, removes[k]))
+//@   loop 1 step len(removes) == prev(len(removes)) + 1 && removes[len(removes) - 1] == $k
 //@ func (*Cache).Commit [C06]
 //@   requires CInv(c)
 //@   only_calls c.bufferFS : ReadDir IsExist IsFile IsDir ReadFile Reader Lstat Filespace
@@ -207,6 +241,7 @@ package fscache
 //@   trace Filespace.MkdirAll as MK bind mkerr
 //@   trace StreamCopy as COPY bind cperr
 //@   trace Copier.Do as TREE bind treeerr
+//@   trace (*Cache).removesDeepestFirst as ORDER bind order
 //@   at_call Copier.Do requires $0.SrcFS == c.bufferFS && $0.DestFS == c.remoteFS && $0.SrcPath == src && $0.DestPath == src
 //@   at_call Filespace.Remove requires $recv == c.remoteFS && $0 == src
 //@   at_call Filespace.RemoveAll requires $recv == c.remoteFS && $0 == src
@@ -215,30 +250,49 @@ package fscache
 //@   at_call Filespace.IsFile requires $recv == c.bufferFS && $0 == src
 //@   at_call Filespace.MkdirAll requires $recv == c.remoteFS
 //@   at_call StreamCopy requires $0 == c.bufferFS && $1 == c.remoteFS && $2 == src
+//@   at_call (*Cache).removesDeepestFirst requires $0 == c
+// -- recursive removes (journal still the one of the entry state)
 //@   loop 1 invariant rmerr == nil && rmallerr == nil && mkerr == nil && cperr == nil && treeerr == nil
-//@   loop 1 invariant CInv(c)
-//@   loop 1 trace_step isexist && rmerr == nil : ^ISEXIST RM $
+//@   loop 1 invariant ref(rangedmap(1)) == old(ref(c.changes.removeAll)) && ref(c.changes.removeAll) == old(ref(c.changes.removeAll)) && ref(c.changes.remove) == old(ref(c.changes.remove)) && ref(c.changes.mkdirAll) == old(ref(c.changes.mkdirAll)) && ref(c.changes.write) == old(ref(c.changes.write))
+//@   loop 1 invariant CInv(c) && foralls(k, has(c.changes.removeAll, k) == old(has(c.changes.removeAll, k)) && has(c.changes.remove, k) == old(has(c.changes.remove, k)) && has(c.changes.write, k) == old(has(c.changes.write, k)) && has(c.changes.mkdirAll, k) == old(has(c.changes.mkdirAll, k)))
+//@   loop 1 trace_step isexist && rmallerr == nil : ^ISEXIST RMALL $
 //@   loop 1 trace_step !isexist : ^ISEXIST $
-//@   loop 1 trace_step rmerr != nil : ^$
+//@   loop 1 trace_step rmallerr != nil : ^$
+// -- plain removes in the order handed out by removesDeepestFirst
 //@   loop 2 invariant rmerr == nil && rmallerr == nil && mkerr == nil && cperr == nil && treeerr == nil
-//@   loop 2 invariant CInv(c) && foralls(k, has(c.changes.remove, k) ==> visitedIn(1, k))
-//@   loop 2 trace_step isexist && rmallerr == nil : ^ISEXIST RMALL $
+//@   loop 2 invariant -1 <= $i && ref(c.changes.remove) == old(ref(c.changes.remove)) && ref(c.changes.mkdirAll) == old(ref(c.changes.mkdirAll)) && ref(c.changes.write) == old(ref(c.changes.write)) && fresh(ref(c.changes.removeAll)) && allocated(ref(c.changes.removeAll))
+//@   loop 2 invariant CInv(c)
+//@   loop 2 invariant foralls(k, old(has(c.changes.removeAll, k)) ==> visitedIn(1, k))
+//@   loop 2 invariant foralls(k, !has(c.changes.removeAll, k))
+//@   loop 2 invariant foralls(k, has(c.changes.write, k) == old(has(c.changes.write, k)) && has(c.changes.mkdirAll, k) == old(has(c.changes.mkdirAll, k)))
+//@   loop 2 trace_step isexist && rmerr == nil : ^ISEXIST RM $
 //@   loop 2 trace_step !isexist : ^ISEXIST $
-//@   loop 2 trace_step rmallerr != nil : ^$
+//@   loop 2 trace_step rmerr != nil : ^$
+// -- directories
 //@   loop 3 invariant rmerr == nil && rmallerr == nil && mkerr == nil && cperr == nil && treeerr == nil
-//@   loop 3 invariant CInv(c) && foralls(k, has(c.changes.remove, k) ==> visitedIn(1, k)) && foralls(k, has(c.changes.removeAll, k) ==> visitedIn(2, k))
+//@   loop 3 invariant ref(rangedmap(2)) == old(ref(c.changes.mkdirAll)) && ref(c.changes.mkdirAll) == old(ref(c.changes.mkdirAll)) && ref(c.changes.write) == old(ref(c.changes.write)) && fresh(ref(c.changes.removeAll)) && fresh(ref(c.changes.remove)) && ref(c.changes.removeAll) != ref(c.changes.remove) && allocated(ref(c.changes.removeAll)) && allocated(ref(c.changes.remove))
+//@   loop 3 invariant CInv(c)
+//@   loop 3 invariant foralls(k, old(has(c.changes.removeAll, k)) ==> visitedIn(1, k))
+//@   loop 3 invariant foralls(k, !has(c.changes.removeAll, k) && !has(c.changes.remove, k))
+//@   loop 3 invariant foralls(k, has(c.changes.write, k) == old(has(c.changes.write, k)) && has(c.changes.mkdirAll, k) == old(has(c.changes.mkdirAll, k)))
 //@   loop 3 trace_step isdir && mkerr == nil : ^ISDIR MK $
 //@   loop 3 trace_step !isdir : ^ISDIR $
 //@   loop 3 trace_step mkerr != nil : ^$
+// -- written files and copied directories
 //@   loop 4 invariant rmerr == nil && rmallerr == nil && mkerr == nil && cperr == nil && treeerr == nil
-//@   loop 4 invariant CInv(c) && foralls(k, has(c.changes.remove, k) ==> visitedIn(1, k)) && foralls(k, has(c.changes.removeAll, k) ==> visitedIn(2, k)) && foralls(k, has(c.changes.mkdirAll, k) ==> visitedIn(3, k))
+//@   loop 4 invariant ref(rangedmap(3)) == old(ref(c.changes.write)) && ref(c.changes.write) == old(ref(c.changes.write)) && fresh(ref(c.changes.removeAll)) && fresh(ref(c.changes.remove)) && fresh(ref(c.changes.mkdirAll)) && ref(c.changes.removeAll) != ref(c.changes.remove) && allocated(ref(c.changes.removeAll)) && allocated(ref(c.changes.remove)) && allocated(ref(c.changes.mkdirAll))
+//@   loop 4 invariant CInv(c)
+//@   loop 4 invariant foralls(k, old(has(c.changes.removeAll, k)) ==> visitedIn(1, k)) && foralls(k, old(has(c.changes.mkdirAll, k)) ==> visitedIn(2, k))
+//@   loop 4 invariant foralls(k, !has(c.changes.removeAll, k) && !has(c.changes.remove, k) && !has(c.changes.mkdirAll, k))
+//@   loop 4 invariant foralls(k, has(c.changes.write, k) == old(has(c.changes.write, k)))
 //@   loop 4 trace_step isfile && mkerr == nil && cperr == nil : ^ISFILE MK COPY $
 //@   loop 4 trace_step !isfile && isdir && treeerr == nil : ^ISFILE ISDIR TREE $
 //@   loop 4 trace_step !isfile && !isdir : ^ISFILE ISDIR $
 //@   loop 4 trace_step mkerr != nil || cperr != nil || treeerr != nil : ^$
-//@   ensures err == nil ==> foralls(k, has(c.changes.remove, k) ==> visitedIn(1, k)) && foralls(k, has(c.changes.removeAll, k) ==> visitedIn(2, k)) && foralls(k, has(c.changes.mkdirAll, k) ==> visitedIn(3, k)) && foralls(k, has(c.changes.write, k) ==> visitedIn(4, k))
-// Commit does not touch the journals: a later Commit replays the same entries
-//@   ensures foralls(k, has(c.changes.remove, k) == old(has(c.changes.remove, k)) && has(c.changes.removeAll, k) == old(has(c.changes.removeAll, k)) && has(c.changes.write, k) == old(has(c.changes.write, k)) && has(c.changes.mkdirAll, k) == old(has(c.changes.mkdirAll, k)))
+// -- on success every entry of the map journals was visited, and all four journals are empty
+//@   ensures err == nil ==> foralls(k, old(has(c.changes.removeAll, k)) ==> visitedIn(1, k)) && foralls(k, old(has(c.changes.mkdirAll, k)) ==> visitedIn(2, k)) && foralls(k, old(has(c.changes.write, k)) ==> visitedIn(3, k))
+//@   ensures err == nil ==> foralls(k, !has(c.changes.removeAll, k) && !has(c.changes.remove, k) && !has(c.changes.mkdirAll, k) && !has(c.changes.write, k))
+//@   ensures CInv(c)
 //@   ensures rmerr != nil ==> err == rmerr
 //@   ensures rmallerr != nil ==> err == rmallerr
 //@   ensures mkerr != nil ==> err == mkerr
